@@ -73,13 +73,16 @@ class Explorer:
 
     def one(self, strategy, cfg, tc, file0, verdicts, clock=(), exc_class=TestRaised,
             atom="line", stream="run", load=False, extra="", model=True, cap=5000,
-            replay=False, auto_tmp=False, hooks=("init", "cleanup"), log_level=None):
+            replay=False, auto_tmp=False, hooks=("init", "cleanup"), log_level=None, **run_kw):
         run = impl_run(strategy, cfg, tc, file0, verdicts, clock=clock, exc_class=exc_class,
-                       atom=atom, load=load, cap=cap, auto_tmp=auto_tmp, hooks=hooks, log_level=log_level)
+                       atom=atom, load=load, cap=cap, auto_tmp=auto_tmp, hooks=hooks, log_level=log_level, **run_kw)
         run.hooks = tuple(hooks)
         ctx = {"strategy": strategy, "cfg": cfg, "tc": tc if not load else run.loaded,
                "file0": file0, "verdicts": verdicts, "clock": list(clock), "atom": atom,
                "exc_class": exc_class.__name__, "load": load}
+        for k_, v_ in run_kw.items():
+            if v_ is not None:
+                ctx[k_] = v_ if not isinstance(v_, tuple) else [x.hex() if isinstance(x, bytes) else x for x in v_]
         self.ck.count(stream)
         key = (strategy, tuple(sorted(cfg.items())), hx(file0), enc_parts(ctx["tc"][1]),
                enc_bools(ctx["tc"][2]), verdicts if isinstance(verdicts, str) else "fn",
